@@ -156,6 +156,7 @@ def apply(eng, rule: Rule, fr, topology, enter, leave, root):
             LEFT = z3.Const(fresh_name("LEFT"), z3.ArraySort(I, B))
             xs = fresh("int", "node")
             xz = xs.z
+            eng.ghost["traverse-step-node"] = xz  # the arbitrary node of this step (for proof hints of the client)
             par = sel(P, xz)
             eng.assume(z3.ForAll([c], z3.And(z3.Implies(sel(LEFT, c), sel(ENT, c)), z3.Implies(sel(ENT, c), Sub(c)),
                                              z3.Implies(z3.And(sel(ENT, c), c != rz), sel(ENT, sel(P, c))))))
@@ -184,6 +185,7 @@ def apply(eng, rule: Rule, fr, topology, enter, leave, root):
             LEFT = z3.Const(fresh_name("LEFT"), z3.ArraySort(I, B))
             xs = fresh("int", "node")
             xz = xs.z
+            eng.ghost["traverse-step-node"] = xz
             eng.assume(z3.ForAll([c], z3.And(z3.Implies(sel(LEFT, c), sel(ENT, c)), z3.Implies(sel(ENT, c), Sub(c)),
                                              z3.Implies(z3.And(sel(ENT, c), c != rz), sel(ENT, sel(P, c))),
                                              z3.Implies(z3.And(sel(LEFT, c), c != rz, sel(LEFT, sel(P, c))), z3.BoolVal(True)))))
